@@ -125,7 +125,7 @@ def replay_edit(case):
 
 
 def plan(tier):
-    return {"shards": 16, "examples": 600 if tier == "quick" else 15000, "wall_limit": 240 if tier == "quick" else 2400}
+    return {"shards": 16, "examples": 1800 if tier == "quick" else 15000, "wall_limit": 240 if tier == "quick" else 2400}
 
 
 def run_shard(sh):
